@@ -62,8 +62,9 @@ package json
 //@   loop 3 decreases len(b)
 
 //@ func json.(*parserState).consumeArray
-//@   requires ibOK(p, b) && capOK(p)
-//@   requires 1 <= lvl && lvl <= p.maxRecursion + 1
+//@   requires ibOK(p, b)
+//@   requires [C16_cap] capOK(p)
+//@   requires [C16_lvl] 1 <= lvl && lvl <= p.maxRecursion + 1
 //@   assigns p.ib, p.currPath, p.firstToken, p.querySatisfied
 //@   ensures 0 <= n && n <= len(b)
 //@   ensures [C08C09_J2] old(p.ib) <= p.ib && p.ib <= old(p.ib) + len(b)
@@ -77,8 +78,9 @@ package json
 //@   loop 1 decreases len(b) - n
 
 //@ func json.(*parserState).consumeObject
-//@   requires ibOK(p, b) && capOK(p)
-//@   requires 1 <= lvl && lvl <= p.maxRecursion + 1
+//@   requires ibOK(p, b)
+//@   requires [C16_cap] capOK(p)
+//@   requires [C16_lvl] 1 <= lvl && lvl <= p.maxRecursion + 1
 //@   assigns p.ib, p.currPath, p.firstToken, p.querySatisfied
 //@   ensures 0 <= n && n <= len(b)
 //@   ensures [C08C09_J2] old(p.ib) <= p.ib && p.ib <= old(p.ib) + len(b)
@@ -92,8 +94,9 @@ package json
 //@   loop 1 decreases len(b) - n
 
 //@ func json.(*parserState).consumeValue
-//@   requires ibOK(p, b) && capOK(p)
-//@   requires 0 <= lvl && lvl <= p.maxRecursion + 1
+//@   requires ibOK(p, b)
+//@   requires [C16_cap] capOK(p)
+//@   requires [C16_lvl] 0 <= lvl && lvl <= p.maxRecursion + 1
 //@   assigns p.ib, p.currPath, p.firstToken, p.querySatisfied
 //@   ensures 0 <= n && n <= len(b)
 //@   ensures ok ==> n > 0
@@ -104,8 +107,9 @@ package json
 //@   decreases p.maxRecursion + 2 - lvl, 0
 
 //@ func json.(*parserState).consumeAny
-//@   requires ibOK(p, b) && capOK(p)
-//@   requires 0 <= lvl && lvl <= p.maxRecursion + 1
+//@   requires ibOK(p, b)
+//@   requires [C16_cap] capOK(p)
+//@   requires [C16_lvl] 0 <= lvl && lvl <= p.maxRecursion + 1
 //@   assigns p.ib, p.currPath, p.firstToken, p.querySatisfied
 //@   ensures 0 <= n && n <= len(b)
 
